@@ -264,7 +264,7 @@ def case_dict(ks, sib_seed, why=None, clause=None):
 # ---------------------------------------------------------------------------
 
 def _strs(case):
-    return [j[1] for j in case.get("keys", []) if j[0] == "s"]
+    return [j[1] for j in list(case.get("keys", [])) + list(case.get("xkeys", [])) if j[0] == "s"]
 
 
 def _rt(case):
@@ -273,7 +273,17 @@ def _rt(case):
     return case.get("clause") in ROUNDTRIP_CLAUSES
 
 
+def _xkeys(case):
+    return case.get("xkeys", [])
+
+
 MATCHERS = {
+    # DiffLevel.path() is None (no path string at all) and a key on the path is inf / -inf / nan
+    "K7-nonfinite-float-key": lambda case: case.get("clause") == "no-path-string"
+    and any(j[0] == "F" and j[1] in ("inf", "-inf", "nan") for j in _xkeys(case)),
+    # DeepDiff itself raises ValueError out of repr(key) and a key on the path is an int of more than 4300 digits
+    "K8-int-key-beyond-str-digits-limit": lambda case: case.get("clause") == "api" and "Exceeds the limit" in case.get("failure", "")
+    and any(j[0] == "I" and j[1] > 4300 for j in _xkeys(case)),
     # a string key on the path contains both quote characters, and the string round trip is what fails
     "K5-both-quote-characters": lambda case: _rt(case) and any("'" in s and '"' in s for s in _strs(case)),
     # a string key on the path ends with the parser's private escape character, and the string round trip is what fails
@@ -1320,11 +1330,7 @@ def lru_calls(ctx, n):
     ctx.coq_cases("lru_calls", HEADER2, cases, shard=150, label="lru_calls")
     # object identities (which calls return the very same tuple) and the cache statistics (hits, misses,
     # currsize) are not part of what the property demands: agreement with the model is recorded, not required
-    agree = 0
-    for i in range(0, len(fulls), 400):
-        txt = ctx.coq_eval("lru_full_%d" % i, HEADER2, "show_count (count_lru_full_agree [%s])" % "; ".join(fulls[i:i + 400]))
-        if txt is not None:
-            agree += int(txt.split()[0])
+    agree = par_count(ctx, "lru_full", HEADER2, "count_lru_full_agree", fulls, 40)
     ctx.count("lru_calls:traces_whose_object_identities_and_cache_statistics_agree_with_the_model", agree)
 
 
@@ -1459,6 +1465,427 @@ def api_shapes(ctx, pool, n):
     ctx.coq_cases("api_shapes", HEADER3, cases, shard=300, label="api_shapes")
 
 
+def par_count(ctx, name, header, fn, items, chunk):
+    """sum of `show_count (fn [items...])` over chunks evaluated by parallel coqc runs"""
+    from concurrent.futures import ThreadPoolExecutor
+    chunks = [items[i:i + chunk] for i in range(0, len(items), chunk)]
+    if not chunks:
+        return 0
+
+    def one(a):
+        k, c = a
+        return ctx.coq_eval("%s_%d" % (name, k), header, "show_count (%s [%s])" % (fn, "; ".join(c)))
+    ctx.ensure_built(header)
+    with ThreadPoolExecutor(max_workers=core.NCPU) as ex:
+        outs = list(ex.map(one, enumerate(chunks)))
+    return sum(int(t.split()[0]) for t in outs if t is not None)
+
+
+# ---- every float, every int: keys beyond the atoms of Base/Value.v (Path/PathXModel.v) ------------
+# and the parser / literal_eval on every text (Path/PathLit.v: the total model)
+
+HEADER4 = ("From DD Require Import Base.PyStr Base.Value Path.PathModel Path.PathShow Path.PathLit Path.PathLitShow "
+           "Path.PathXModel Path.PathXShow.\nLocal Open Scope N_scope.")
+XFLOATS = [1e16, 1e15, 1.5e16, -1e16, 1e-4, 1e-5, 2.5e-7, 0.1, -0.1, 0.3, 0.30000000000000004, 1e22, 1e23, 1e21, 123456789012345678.0,
+           9007199254740992.0, 9007199254740994.0, 4503599627370496.5, 2.25, -7.125, 1e100, 1.7976931348623157e308, 5e-324,
+           2.2250738585072014e-308, -0.0, 0.0, 1e-7, 9.999999999999999e22, 3.141592653589793, 2.718281828459045e-10, 6.02214076e23]
+XFLOATS_CHEAP = [x for x in XFLOATS if 1e-30 < abs(x) < 1e30 or x == 0]      # the model needs seconds for |exponents| near 300
+NONFINITE = [float("inf"), float("-inf"), float("nan")]
+XINTS = [10 ** 30, -10 ** 30, 2 ** 64, 10 ** 16, -(10 ** 400), 10 ** 308 + 7]
+
+
+def float_parts(x):
+    """(neg, magnitude) with magnitude "zero" | "inf" | (m, e): x = +-m * 2**e, m odd"""
+    import math
+    neg = math.copysign(1.0, x) < 0
+    if x == 0:
+        return neg, "zero"
+    if math.isinf(x):
+        return neg, "inf"
+    n, d = abs(x).as_integer_ratio()
+    e = -(d.bit_length() - 1)
+    while n % 2 == 0:
+        n //= 2
+        e += 1
+    return neg, (n, e)
+
+
+def pv_canon(v):
+    """mirror of PathLitShow.sx_pval"""
+    if v is None:
+        return None
+    if v is True or v is False:
+        return ["b", v]
+    if isinstance(v, int):
+        return ["i", v]
+    if isinstance(v, float):
+        if v != v:
+            return "nan"
+        neg, mag = float_parts(v)
+        return ["f", neg, mag if isinstance(mag, str) else [mag[0], mag[1]]]
+    if isinstance(v, str):
+        return ["s", v]
+    if isinstance(v, bytes):
+        return ["y", v.decode("latin-1")]
+    try:
+        hash(v)
+        return ["o", True]
+    except TypeError:
+        return ["o", False]
+
+
+def coq_fmag(mag):
+    if mag == "zero":
+        return "FZero"
+    if mag == "inf":
+        return "FInf"
+    return "(FFin %d%%positive %s)" % (mag[0], core.coq_Z(mag[1]))
+
+
+def coq_xkey(k):
+    tag, a = k
+    if tag == "x":
+        return "(XIdx %d%%nat)" % a
+    if a is None:
+        return "(XKey PvNone)"
+    if a is True or a is False:
+        return "(XKey (PvBool %s))" % core.coq_bool(a)
+    if isinstance(a, int):
+        return "(XKey (PvInt %s))" % core.coq_Z(a)
+    if isinstance(a, float):
+        if a != a:
+            return "XNan"
+        neg, mag = float_parts(a)
+        return "(XKey (PvFloat %s %s))" % (core.coq_bool(neg), coq_fmag(mag))
+    if isinstance(a, bytes):
+        return "(XKey (PvBytes %s))" % core.coq_pystr(a)
+    return "(XKey (PvStr %s))" % core.coq_pystr(a)
+
+
+def xkey_same(a, b):
+    """same type and value; floats by sign and value (-0.0 is not 0.0), nan is nan"""
+    if type(a) is not type(b):
+        return False
+    if isinstance(a, float):
+        return pv_canon(a) == pv_canon(b)
+    return a == b
+
+
+def is_nonfinite(a):
+    return isinstance(a, float) and (a != a or a in (float("inf"), float("-inf")))
+
+
+def is_huge_int(a):
+    return isinstance(a, int) and not isinstance(a, bool) and abs(a) >= 10 ** 4300
+
+
+def xkey_ok(a):
+    """mirror of the decidable part of PathXModel.xkey_ok (floats: finite; ints: at most 4300 digits)"""
+    if isinstance(a, float):
+        return not is_nonfinite(a)
+    if isinstance(a, int) and not isinstance(a, bool):
+        return not is_huge_int(a)
+    return key_ok(a)
+
+
+def observe_x(ks):
+    """The real API on a location through keys of every kind (single leaf, bare nest).
+    Returns (observable for c09_xcase, [(clause, failure)])."""
+    from deepdiff import DeepDiff, extract, parse_path
+    from deepdiff.path import stringify_path, _path_to_elements
+    obj1, obj2 = build(ks, 1, None), build(ks, 2, None)
+    raw = [a for _t, a in ks]
+    try:
+        text = DeepDiff(obj1, obj2, ignore_private_variables=False)
+        tree = DeepDiff(obj1, obj2, ignore_private_variables=False, view="tree")
+    except Exception as e:
+        return "RAISES", [("api", "DeepDiff raised %s: %s" % (type(e).__name__, str(e)[:120]))]
+    if list(text.keys()) != ["values_changed"] or len(text["values_changed"]) != 1:
+        return None, [("report", "DeepDiff did not report exactly one values_changed: %s" % (repr(text)[:300],))]
+    p = list(text["values_changed"])[0]
+    level = tree["values_changed"][0]
+    lp = level.path(output_format="list")
+    whys = []
+    if not (isinstance(lp, list) and len(lp) == len(raw) and all(xkey_same(x, y) for x, y in zip(lp, raw))):
+        whys.append(("list-form", "tree view list path %s, the key sequence is %s" % (repr(lp)[:300], safe_repr(raw)[:300])))
+    if level.path() != p:
+        whys.append(("report", "tree view path() %r differs from the text view key %r" % (level.path(), p)))
+    if p is None:
+        whys.append(("no-path-string", "the reported path is None (no path string) for the key sequence %s" % (safe_repr(raw),)))
+        return "None", whys
+    if not isinstance(p, str):
+        return None, whys + [("report", "reported path is not a string: %r" % (p,))]
+    try:
+        parsed = parse_path(p)
+        els = _path_to_elements(p, root_element=None)
+    except Exception as e:
+        return [p, "RAISES"], whys + [("parse_path", "parse_path(%r) raised %s" % (p, type(e).__name__))]
+    if not (len(parsed) == len(raw) and all(xkey_same(x, y) for x, y in zip(parsed, raw))):
+        whys.append(("parse_path", "parse_path(%r) = %r, the key sequence is %r" % (p, parsed, raw)))
+    try:
+        got = extract(obj1, p)
+        if not (type(got) is int and got == 1):
+            whys.append(("extract", "extract(obj, %r) returned %r, the object at the location is 1" % (p, got)))
+    except Exception as e:
+        whys.append(("extract", "extract(obj, %r) raised %s: %s" % (p, type(e).__name__, e)))
+    sa = stringify_path(els)
+    sb = stringify_path(parsed, root_element=("root", "GET"))
+    if sa != p:
+        whys.append(("stringify_path", "stringify_path(_path_to_elements(p, root_element=None)) = %r, p = %r" % (sa, p)))
+    if sb != p:
+        whys.append(("stringify_path", "stringify_path(parse_path(p), root_element=('root','GET')) = %r, p = %r" % (sb, p)))
+    exp = [p, ["ok", [[pv_canon(x), "G" if act == "GET" else "A"] for x, act in els], ["Some", sa]]]
+    return exp, whys
+
+
+def xkey_json(k):
+    tag, a = k
+    if isinstance(a, float):
+        return ["F", repr(a)]
+    if isinstance(a, int) and not isinstance(a, bool) and abs(a) >= 10 ** 300:
+        # (number of digits, negative, leading digits): the replay rebuilds an int of that size
+        nd = len(str(abs(a))) if abs(a) < 10 ** 4300 else 4301
+        return ["I", nd, a < 0]
+    return key_json(k)
+
+
+def xkey_unjson(j):
+    if j[0] == "F":
+        return ("k", float(j[1]))
+    if j[0] == "I":
+        v = 10 ** (j[1] - 1)
+        return ("k", -v if j[2] else v)
+    return key_unjson(j)
+
+
+def safe_repr(raw):
+    """repr of a key list; ints beyond the digit limit of int -> str are named, not printed"""
+    return "[" + ", ".join(("%s10**%d" % ("-" if a < 0 else "", 4300)) + "(or more)" if is_huge_int(a) else repr(a) for a in raw) + "]"
+
+
+def xcase_dict(ks, why=None, clause=None):
+    d = {"xkeys": [xkey_json(k) for k in ks],
+         "python": "DeepDiff(build(keys,1), build(keys,2), ignore_private_variables=False); keys = %s" % (safe_repr([a for _t, a in ks])[:300],)}
+    if why:
+        d["failure"] = why
+        d["clause"] = clause
+    return d
+
+
+def _x_task(ks):
+    logging.disable(logging.CRITICAL)
+    try:
+        exp, whys = observe_x(ks)
+    except Exception as e:
+        return (ks, None, [("api", "the path API raised %s: %s" % (type(e).__name__, str(e)[:120]))])
+    return (ks, exp, whys)
+
+
+def gen_xkey(rng, pool):
+    import math
+    r = rng.random()
+    if r < 0.45:
+        if rng.random() < 0.7:
+            return ("k", rng.choice(XFLOATS_CHEAP))
+        return ("k", math.ldexp(rng.random() + 0.5, rng.randint(-60, 70)) * rng.choice([1, -1]))
+    if r < 0.55:
+        return ("k", rng.choice(XINTS) if rng.random() < 0.6 else rng.randint(-10 ** 40, 10 ** 40))
+    if r < 0.60:
+        return ("k", rng.choice(NONFINITE))
+    return gen_key(rng, pool)
+
+
+def exotic_keys(ctx, pool, n):
+    rng = ctx.rng
+    seqs = [[("k", x)] for x in XFLOATS + NONFINITE + XINTS]
+    seqs += [[("k", "a"), ("k", x), ("x", 1)] for x in XFLOATS[:12]]
+    seqs += [[("k", float("inf")), ("k", "a")], [("k", "a"), ("k", float("nan"))]]
+    while len(seqs) < n:
+        seqs.append([gen_xkey(rng, pool) for _ in range(rng.randint(1, 3))])
+    # the boundary of repr's digit limit: direct oracle only (the model needs ~20 s for such a number)
+    seqs_oracle_only = [[("k", 10 ** 4300 - 1)], [("k", 10 ** 4300)], [("k", "a"), ("k", -(10 ** 4300))]]
+    with mp.get_context("fork").Pool(core.NCPU) as pool_:
+        res = pool_.map(_x_task, seqs + seqs_oracle_only, chunksize=16)
+    cases = []
+    for ks, exp, whys in res:
+        raw = [a for _t, a in ks]
+        ok = all(xkey_ok(a) for a in raw)
+        ctx.seen(("xkeys", safe_repr(raw)[:2000]), nontrivial=True)
+        ctx.count("exotic_keys:%s" % ("inside_guard" if ok else "outside_guard"))
+        for a in raw:
+            if isinstance(a, float) and not is_nonfinite(a) and not (abs(a) < 2 ** 52 and a * 2 == int(a * 2) and pv_canon(a) != pv_canon(-0.0)):
+                ctx.count("exotic_keys:finite_float_keys_outside_the_atoms_of_Base/Value.v")
+        other, rt = split_whys(whys)
+        bytes_out = has_bytes(ks) and not all(key_ok(a) for _t, a in ks if isinstance(a, bytes))
+        for w in (other, rt):
+            if w and not (bytes_out and w[0] in ROUNDTRIP_CLAUSES):
+                r = ctx.fail(xcase_dict(ks, w[1], w[0]), w[1])
+                if r == "known" and ok:
+                    ctx.failures.append({"what": "failure inside the proved guard: " + w[1], "case": xcase_dict(ks, w[1], w[0])})
+        if exp is not None and not any(isinstance(a, int) and not isinstance(a, bool) and abs(a) >= 10 ** 1000 for a in raw):
+            # with the decidable guard of the Coq theorems (float_text_ok ...): it must hold of every finite float
+            cases.append(("c09_xcase_g [%s]" % "; ".join(coq_xkey(k) for k in ks), [ok, exp], xcase_dict(ks)))
+            ctx.count("exotic_keys:key_sequences_meeting_the_coq_guard", 1 if ok else 0)
+    ctx.coq_cases("exotic_keys", HEADER4, cases, shard=30, label="exotic_keys")
+
+
+# ---- literal_eval and the parser on every text -----------------------------------------------------
+
+LIT_LITS = ["0", "1", "12", "007", "0_0", "1_0", "0x1f", "0b1_0", "0o7", "1.5", ".5", "5.", "1e5", "1E-5", "1.5e+300", "1e999", "4.9e-324",
+            "1e16", "9007199254740993", "0.1", "1e22", "1e23", "0.30000000000000004", "1j", "1.5J", "0e0", "00.5", "1_0.0_1e1_0", "1" + "0" * 310,
+            "-0.0", "- 1", "+2", "1e-05", "1.7976931348623157e+308", "5e-324"]
+LIT_OTH = ["None", "True", "False", "...", "set()", "'a'", '"b"', "b'x'", "r'y'", "rb'z'", "'é'", "''", '""', "'a' 'b'", "'''t'''", "u'k'", "f'k'", "a", "set"]
+LIT_CHARS = list("0123456789._eEjxob+- \n\t\f\r#,()[]{}:'\"") + ["é", "a", "N", "\x0b", "\x00", "=", "*", "set", "True"]
+LIT_VOCAB = ["1", "0", "'a'", "b'c'", "None", "True", "set", "(", ")", "[", "]", "{", "}", ",", ":", "+", "-", "...", "1j", " ", "\n", "1.5", "()", "[]", "{}",
+             "set()", "#\n", "1e400"]
+
+
+def gen_lit(rng, d=0):
+    r = rng.random()
+    if r < 0.3:
+        return rng.choice(LIT_LITS)
+    if r < 0.45:
+        return rng.choice(LIT_OTH)
+    if r < 0.55:
+        return rng.choice(["-", "+", "- ", "--"]) + gen_lit(rng, d + 1)
+    if r < 0.65:
+        return gen_lit(rng, d + 1) + rng.choice(["+", "-", " + ", " - "]) + gen_lit(rng, d + 1)
+    if r < 0.70:
+        return gen_lit(rng, d + 1) + rng.choice(["()", "(1)", "[1]", "[1:2]", "[::]", "[1,2:]", "(1,)"])
+    if d > 2:
+        return "1"
+    items = [gen_lit(rng, d + 1) for _ in range(rng.randint(0, 3))]
+    sep = rng.choice([",", ", ", " ,", ",\n", ", #c\n"])
+    k, trail = rng.random(), rng.choice(["", "", ","])
+    if k < 0.3:
+        return "(" + sep.join(items) + trail + ")"
+    if k < 0.5:
+        return "[" + sep.join(items) + trail + "]"
+    if k < 0.7:
+        return "{" + sep.join(items) + trail + "}"
+    if k < 0.9:
+        return "{" + sep.join(gen_lit(rng, d + 1) + rng.choice([":", ": ", " :"]) + x for x in items) + trail + "}"
+    return sep.join(items) + trail
+
+
+def gen_lit_text(rng):
+    r = rng.random()
+    if r < 0.25:
+        return "".join(rng.choice(LIT_VOCAB) for _ in range(rng.randint(1, rng.choice([4, 8]))))
+    s = list(gen_lit(rng))
+    if rng.random() < 0.6:
+        for _ in range(rng.randint(0, 2)):
+            q, i = rng.random(), rng.randrange(len(s) + 1)
+            if q < 0.4 and i < len(s):
+                del s[i]
+            elif q < 0.8:
+                s.insert(i, rng.choice(LIT_CHARS))
+            elif i < len(s):
+                s[i] = rng.choice(LIT_CHARS)
+    s = "".join(s)
+    if rng.random() < 0.15:
+        s = rng.choice(["\n", " ", "#x\n", "\f", "\n "]) + s
+    if rng.random() < 0.15:
+        s = s + rng.choice(["\n", " ", " #x", "\n ", "\n\f", "\n#", "\n\n", "\n1"])
+    return s
+
+
+def real_literal_eval(s):
+    import ast
+    import warnings
+    try:
+        with warnings.catch_warnings():
+            warnings.simplefilter("ignore")
+            return ["ok", pv_canon(ast.literal_eval(s))]
+    except (ValueError, SyntaxError):
+        return "fail"
+    except (TypeError, MemoryError, RecursionError, OverflowError):
+        return "raise"
+
+
+LIT_HAND = ["1e5", "1E5", "1e+5", "1e", "1.e5", ".5e1", "0x10", "0o17", "0b101", "007", "0_7", "1j", "09.5", "1e999", "-1e999", "...", "1.", "a", "1 #c", "#",
+            "(1,\n2)", "1,2", "1,", "()", "[]", "{}", "{1}", "{1:2}", "set()", "{[1]}", "{[1]:2}", "{[1]: a}", "1+2j", "1+2", "-(1)", "--1", "((1))", "'a' 'b'",
+            "b'a' 'b'", "ur'a'", "f'a'", "1\n ", "1\n #c", "\n 1", "\f1", "\f 1", "(\n 1)", "'''a\nb'''", "''''a'''", "1\r", "(1,\r2)", "1\x0b", "1[1:2]", "1[]",
+            "(set)()", "set()()", "1" + "0" * 309 + "+1j", "1" * 4301, "0" * 4400, "{1:2, 3:1()}", "-0.0", "1e-400", "2.5e-324", "1.7976931348623159e308"]
+
+
+def reachable_text(t):
+    """the texts _add_to_elements can hand to literal_eval: without quotes, or A q B q / A q B with A free of
+    quotes and B free of q (a closing quote flushes the element), and without backslash / U+1D1C0"""
+    if "\\" in t or ESC in t:
+        return False
+    i = next((k for k, c in enumerate(t) if c in "'\""), None)
+    if i is None:
+        return True
+    q, rest = t[i], t[i + 1:]
+    return q not in rest or rest.index(q) == len(rest) - 1
+
+
+def literal_texts(ctx, n):
+    """ast.literal_eval itself against the total model (PathLit.full_eval), the combined function the
+    parser uses (PathXModel.leval), and the agreement of the hand model of the sub-language with the total one"""
+    rng = ctx.rng
+    texts = list(dict.fromkeys(LIT_HAND + [gen_lit_text(rng) for _ in range(n)]))
+    texts = [t for t in texts if "\\" not in t]
+    cases, cases2 = [], []
+    nok = 0
+    for t in texts:
+        exp = real_literal_eval(t)
+        nok += isinstance(exp, list)
+        ctx.seen(("lit", t), nontrivial=True)
+        cases.append(("c09_lit_or %s (%s)" % (core.coq_pystr(t), core.sx(exp)), exp, {"literal_text": t}))
+        if reachable_text(t):
+            ctx.count("literal_texts:reachable_from_the_parser")
+            cases.append(("c09_leval_or %s (%s)" % (core.coq_pystr(t), core.sx(exp)), exp, {"literal_text": t}))
+            cases2.append(("c09_lit_agree %s" % core.coq_pystr(t), "agree", {"literal_text": t, "note": "PathModel.literal_eval against PathLit.full_eval"}))
+    ctx.count("literal_texts:texts", len(texts))
+    ctx.count("literal_texts:accepted_by_literal_eval", nok)
+    ctx.coq_cases("literal_texts", HEADER4, cases, shard=200, label="literal_texts")
+    ctx.coq_cases("literal_models_agree", HEADER4, cases2, shard=400, label="literal_models_agree")
+    ctx.count("literal_texts:model_unsupported(not compared)",
+              par_count(ctx, "lit_unsup", HEADER4, "count_lit_unsup", [core.coq_pystr(t) for t in texts], 120))
+
+
+XPATH_CHARS = PATH_CHARS + ["e", "E", "j", "x", "(", ")", ",", "#", "{", "}", ":", "+", "2", "9", "\r", "\f", "1e5", "0x1", "1.5", "()", "set()", "..."]
+
+
+def parser_strings_x(ctx, n):
+    """_path_to_elements / stringify_path on arbitrary strings against the extended parser: every string is compared"""
+    from deepdiff.path import stringify_path, _path_to_elements
+    rng = ctx.rng
+    strs = list(HAND) + ["root[1e5]", "root[1e+16]", "root[-0.0]", "root[1e999]", "root[0x10]", "root[1j]", "root[(1, 2)]", "root[1, 2]", "root[{1}]",
+                         "root[{[1]}]", "root[...]", "root[1 #'\n]", "root[(1, #'\n2) #']", "root[set()]", "root.1e5", "root[1e5].a[0b1]", "root[[1, 2]]",
+                         "root[1e-05][2.5e-07]['a']", "root[{[1]: 2}]x", "root[00]", "root['a' 'b']", "root[\"a\" 'b']"]
+    for _ in range(n):
+        strs.append("root" + "".join(rng.choice(XPATH_CHARS) for _ in range(rng.randint(1, 9))))
+    for _ in range(n // 3):
+        strs.append("root[" + gen_lit_text(rng) + "]" + rng.choice(["", "", "['a']", ".b", "[0]"]))
+    strs = list(dict.fromkeys(strs))
+    cases = []
+    for p in strs:
+        try:
+            els = _path_to_elements(p, root_element=None)
+            cels = [[pv_canon(x), "G" if act == "GET" else "A"] for x, act in els]
+            try:
+                sa = ["Some", stringify_path(els)]
+            except Exception:
+                sa = None
+            if any(isinstance(c[0], list) and c[0][0] == "o" for c in cels):
+                sa = None          # an element that is no key of the domain (tuple, complex, ...): the model keeps no text for it
+            exp = ["ok", cels, sa]
+        except (TypeError, OverflowError):
+            exp = "RAISES"
+            ctx.count("parser_strings_x:impl_raises(TypeError / OverflowError out of literal_eval)")
+        except Exception as e:
+            ctx.count("parser_strings_x:impl_raised_" + type(e).__name__)
+            continue
+        ctx.seen(("xpstr", p), nontrivial=True)
+        cases.append(("c09_xparse_or %s (%s)" % (core.coq_pystr(p), core.sx(exp)), exp, {"path_string": p}))
+    ctx.coq_cases("parser_strings_x", HEADER4, cases, shard=200, label="parser_strings_x")
+    n_unsup = par_count(ctx, "xparser_unsup", HEADER4, "count_xunsup", [core.coq_pystr(p) for p in strs], 150)
+    ctx.count("parser_strings_x:model_unsupported(not compared)", n_unsup)
+
+
 # ---- refuted witnesses still fail on the implementation -----------------------
 
 def witnesses(ctx):
@@ -1480,6 +1907,8 @@ def run(ctx):
     only = set(only.split(",")) if only else None
 
     def on(name):
+        if os.environ.get("C09_TIMING"):
+            print("timing: %6.1fs before %s" % (ctx.elapsed(), name), file=sys.stderr)
         return only is None or name in only
     if on("witnesses"):
         witnesses(ctx)
@@ -1495,11 +1924,17 @@ def run(ctx):
     if on("list_edits"):
         list_edits(ctx, pool, 2500 if ctx.thorough else 400)
     if on("path_calls"):
-        path_calls(ctx, pool, 1200 if ctx.thorough else 150)
+        path_calls(ctx, pool, 1200 if ctx.thorough else 110)
     if on("lru_calls"):
-        lru_calls(ctx, 1500 if ctx.thorough else 250)
+        lru_calls(ctx, 1500 if ctx.thorough else 150)
     if on("api_shapes"):
-        api_shapes(ctx, pool, 1500 if ctx.thorough else 250)
+        api_shapes(ctx, pool, 1500 if ctx.thorough else 130)
+    if on("exotic_keys"):
+        exotic_keys(ctx, pool, 900 if ctx.thorough else 130)
+    if on("literal_texts"):
+        literal_texts(ctx, 6000 if ctx.thorough else 450)
+    if on("parser_strings_x"):
+        parser_strings_x(ctx, 3000 if ctx.thorough else 400)
     if on("parser_strings"):
         parser_strings(ctx, 3000 if ctx.thorough else 600)
     if on("extract_positions"):
@@ -1558,6 +1993,17 @@ def replay(ctx, data):
         if why:
             ctx.fail(shape_case(ks, a["seed"], clause, why), why)
         ctx.coq_cases("replay", HEADER3, [(e, o, case) for e, o in cs])
+    elif "xkeys" in case:
+        ks = [xkey_unjson(j) for j in case["xkeys"]]
+        exp, whys = observe_x(ks)
+        ctx.seen(("replay", repr(ks)[:500]), nontrivial=True)
+        print("replay: xkeys=%s observed=%s failures=%r" % (safe_repr([a for _t, a in ks])[:300], repr(exp)[:300], whys))
+        for w in split_whys(whys):
+            if w:
+                ctx.fail(xcase_dict(ks, w[1], w[0]), w[1])
+        if exp is not None and not any(isinstance(a, int) and not isinstance(a, bool) and abs(a) >= 10 ** 1000 for _t, a in ks):
+            ok = all(xkey_ok(a) for _t, a in ks)
+            ctx.coq_cases("replay", HEADER4, [("c09_xcase_g [%s]" % "; ".join(coq_xkey(k) for k in ks), [ok, exp], case)])
     elif "list_edit" in case:
         le = case["list_edit"]
         prefix = [key_unjson(j) for j in le["prefix"]]
